@@ -365,10 +365,10 @@ Proof.
   - intros (n & d & H). destruct H as [H|[H|[H|[]]]]; discriminate.
 Qed.
 
-(* candidate finding F13: a registration for an already imported module runs the built-in glue at
+(* candidate finding C17-G1: a registration for an already imported module runs the built-in glue at
    once although the module provides its own glue, which then also runs *)
-Definition f13_world := mkworld 1 [OMod (Some (mkfn BOk []))] [mkfn BOk []].
-Definition f13_hist := [CEnv (EIR (IIns 0 0)); CEnv (EReg 0); CFull 0].
+Definition g1_world := mkworld 1 [OMod (Some (mkfn BOk []))] [mkfn BOk []].
+Definition g1_hist := [CEnv (EIR (IIns 0 0)); CEnv (EReg 0); CFull 0].
 
 Theorem never_both_refuted :
   exists w scanned h n o f,
@@ -376,7 +376,7 @@ Theorem never_both_refuted :
     let s := fst (crun src_cfg w h (init w scanned)) in
     In (EvImm f n) (log s) /\ (exists d, In (EvCallM o n d) (log s)) /\ g_bad s = true.
 Proof.
-  exists f13_world, true, f13_hist, 0, 0, 0.
+  exists g1_world, true, g1_hist, 0, 0, 0.
   split; [reflexivity|]. vm_compute.
   split; [|split]; [right; right; left; reflexivity | exists None; right; left; reflexivity | reflexivity].
 Qed.
